@@ -289,13 +289,13 @@ func c10(r *Report) {
 						continue
 					}
 					for _, s := range sel.States {
-						if resolveFree(s.Chan) == ssa.Value(px.Params[1]) && closesChan(f, mk, 0) {
+						if isParamVal(resolveFree(s.Chan), px.Params[1]) && closesChan(f, mk, 0) {
 							okShut = true
 						}
 					}
 				}
 			}
-		} else if dirs[0].stop == ssa.Value(px.Params[1]) {
+		} else if isParamVal(dirs[0].stop, px.Params[1]) {
 			okShut = true
 		}
 		r.Decide("callgraph", "(*M/h2.Config).Proxy: proxy shutdown stops both directions", okShut, "the closing parameter is watched and closes the session stop channel", "proxy shutdown no longer reaches the relay directions", px.Pos())
